@@ -95,8 +95,50 @@ def replay_set_version(pattern, current, target):
     return set_version_case(pattern, current, target) is None
 
 
+SELF_PATTERN_CASES = [(f, i, p, c) for f in (True, False) for i in (True, False) for (p, c) in (("MAJOR.MINOR.PATCH", "0.1.9"), ("YYYY.BUILD[-TAG]", "2020.1009-beta"), ("{semver}", "0.1.9"))]
+
+
+def self_pattern_case(foreign, implicit, pattern, current):
+    """Directed: the config file's own current_version line is updated (listed explicitly or through the implicit
+    default pattern), also when a section of another tool with a current_version line of its own precedes [bumpver]."""
+    from shadows.project import plain_scenario, check_scenario
+
+    flags = ["--patch"] if "MAJOR" in pattern or "semver" in pattern else []
+    r = check_scenario(0, sc=plain_scenario(foreign_section=foreign, implicit_self_pattern=implicit, pattern=pattern, current=current, flags=flags))
+    bad = {k: v for k, v in r.items() if k in ("C03", "C04", "_error")}
+    if not bad and r.get("_rc") != 0:
+        bad = {"C03": f"update failed (exit {r.get('_rc')}) on a consistent project"}
+    return f"foreign section={foreign}, implicit self pattern={implicit}, {pattern}: {bad}" if bad else None
+
+
+def replay_self_pattern(foreign, implicit, pattern, current):
+    return self_pattern_case(foreign, implicit, pattern, current) is None
+
+
 def run(tier="quick", seed=0):
     out = [run_shadow("C03", tier, seed)]
+    bad_sp = []
+    for case in SELF_PATTERN_CASES:
+        try:
+            r = self_pattern_case(*case)
+        except Exception as e:  # noqa
+            r = f"exception {type(e).__name__}: {e}"
+        if r is not None:
+            bad_sp.append((case, r))
+    out.append(
+        dict(
+            name="C03.self_pattern.config_files_own_current_version_line_is_updated",
+            kind="B",
+            verdict="held" if not bad_sp else "refuted",
+            cases=len(SELF_PATTERN_CASES),
+            distinct=len(SELF_PATTERN_CASES),
+            bound=f"{len(SELF_PATTERN_CASES)} directed projects: explicit / implicit self pattern x with / without a foreign [bumpversion] section in front x 3 pattern families; real CLI, fake git",
+            witness=[dict(case=list(c), problem=r) for c, r in bad_sp[:3]],
+            observed=bad_sp[0][1] if bad_sp else None,
+            sample=[list(c) for c in SELF_PATTERN_CASES[:3]],
+            python_replay=(dict(module="checks.c03", function="replay_self_pattern", args=list(bad_sp[0][0])) if bad_sp else None),
+        )
+    )
     known = {k["witness_class"]: k for k in _known.load("C03")}
     bad, hits = [], []
     for case in SET_VERSION_CASES:
